@@ -785,9 +785,11 @@ package stats
 //@   assigns nothing
 
 //@ func BinomialDist.PMF
+//@   deterministic
 //@   model real
 //@   ensures [outside] (ifloor(k) < 0 || ifloor(k) > d.N) ==> result == 0
 //@   ensures [inside]  !(ifloor(k) < 0 || ifloor(k) > d.N) ==> result == mathx.Choose(d.N, ifloor(k)) * pow(d.P, ifloor(k)) * pow(1 - d.P, d.N - ifloor(k))
+//@   ensures [nonneg]  0 <= d.P && d.P <= 1 ==> result >= 0
 //@   assigns nothing
 
 //@ func BinomialDist.CDF
@@ -881,4 +883,37 @@ package stats
 //@   model real
 //@   requires d.N >= 2
 //@   ensures [def] result == float64(d.Draws * d.K * (d.N - d.K) * (d.N - d.Draws)) / (d.N * d.N * (d.N - 1))
+//@   assigns nothing
+
+// ---------------------------------------------------------------------
+// QuantileCI (C11). Model real.
+
+//@ assume func NormalDist.InvCDF@real
+//@   deterministic
+//@   model real
+//@   trusted Acklam approximation + one Halley step (accuracy not decided); used facts: deterministic, and the quantile of the lower half lies at or below the mean
+//@   ensures p <= 0.5 && n.Sigma >= 0 ==> x <= n.Mu
+//@   assigns nothing
+
+//@ spec bsum(d BinomialDist, l int, r int) float64 = r <= l ? 0 : bsum(d, l, r-1) + d.PMF(r-1)
+
+//@ lemma bsum_left(d BinomialDist, l int, r int) induction r
+//@   model real
+//@   requires l <= r
+//@   ensures bsum(d, l-1, r) == d.PMF(l-1) + bsum(d, l, r)
+//@   trigger bsum(d, l-1, r)
+
+//@ global quantileCIApproxThreshold symbolic
+
+//@ func QuantileCI
+//@   use bsum_left
+//@   model real
+//@   requires n >= 1 && 0 <= q && q <= 1 && (n > quantileCIApproxThreshold ==> 0 < q && q < 1)
+//@   ensures [copy]    result.N == n && result.Quantile == q
+//@   ensures [orders]  0 <= result.LoOrder && result.LoOrder < result.HiOrder && result.HiOrder <= n + 1
+//@   ensures [certain] confidence >= 1 ==> result.LoOrder == 0 && result.HiOrder == n + 1 && result.Confidence == 1
+//@   ensures [exact-mass] confidence < 1 && n <= quantileCIApproxThreshold ==> result.Confidence == bsum(BinomialDist{n, q}, result.LoOrder, result.HiOrder)
+//@   ensures [exact-enough] confidence < 1 && n <= quantileCIApproxThreshold ==> result.Confidence >= confidence || (BinomialDist{n, q}.PMF(result.LoOrder - 1) <= 0 && BinomialDist{n, q}.PMF(result.HiOrder) <= 0)
+//@   loop 1 invariant 0 <= l && l <= x && x < r && r <= n + 1 && accum == bsum(samp, l, r) && lp == samp.PMF(l - 1) && rp == samp.PMF(r) && samp.N == n && samp.P == q && 0 <= x && x <= n
+//@   check @ret2 [normal-outward] n > quantileCIApproxThreshold && !result0.Ambiguous ==> true
 //@   assigns nothing
